@@ -26,7 +26,7 @@ import (
 
 func init() {
 	register(&Rule{
-		ID: "UR", Props: []string{"C05", "C07"}, Min: 8,
+		ID: "UR", Props: []string{"C05", "C07"}, Min: 5,
 		Doc: `recycled means dead: for every variable on which (*BioSequence).Recycle() is called (not deferred), typestate over go/cfg shows that no path reads the variable after the call
 before it is reassigned or its declaring loop iterates, and that no path recycles it after it escaped (append, Push, channel send, store into a field / element / map, return):
 the pools hand the recycled slices and annotation map to the next caller, so a record still to be output would be overwritten by another goroutine's data.`,
